@@ -3,6 +3,7 @@
 Real code under contract:
   prqlc/prqlc/src/sql/gen_expr.rs       translate_literal (arms for null / string / raw string / boolean / float / integer);
                                         expr_of_i64 (the numbers of LIMIT / OFFSET)
+  prqlc/prqlc/src/sql/mod.rs            compile: slice `let sql = if options.format .. { sqlformat::format(..) + "\n" } else { sql };`
   prqlc/prqlc-parser/src/lexer/mod.rs   number(): tail of the `.map(|((int_part, frac_part), exp_part)| { .. })` closure that turns the digits into a Literal
 """
 import re
@@ -15,15 +16,20 @@ GEN_EXPR = "prqlc/prqlc/src/sql/gen_expr.rs"
 LEXER = "prqlc/prqlc-parser/src/lexer/mod.rs"
 LR = "prqlc/prqlc-parser/src/lexer/lr.rs"
 
-LABELS = ["TL1s", "TL1r", "TL1i", "TL1b", "TL1n", "TL1f", "LN1", "LN2", "LN3", "EI1"]
-FUNCTIONS = ["translate_literal", "number_literal_slice", "expr_of_i64"]
+LABELS = ["TL1s", "TL1r", "TL1i", "TL1b", "TL1n", "TL1f", "LN1", "LN2", "LN3", "EI1", "FM1", "FM2"]
+FUNCTIONS = ["translate_literal", "number_literal_slice", "expr_of_i64", "format_slice"]
 RLIMIT = 60
 
 ASSUMED = [
     {"what": "opaque external types", "keys": ["pub struct Opaque"]},
     {"what": "sqlparser Value is a skeleton generated from the pinned sqlparser source (String / bool payloads kept); `.into()` (Value -> ValueWithSpan) "
-             "is with_empty_span: the value is kept; sqlparser's Display doubles `'` inside SingleQuotedString and nothing else (read in sqlparser 0.60 "
-             "value.rs escape_quoted_string)", "keys": ["fn with_empty_span"]},
+             "is with_empty_span: the value is kept. sqlparser 0.60's Display of SingleQuotedString (value.rs EscapeQuotedString) prints a quote that is followed by a quote, "
+             "or preceded by a backslash, AS IT IS and doubles only the others - so the payload must already have every quote doubled (sql_quoted()), which Display then "
+             "leaves unchanged; str::replace('\\'', \"''\") doubles every quote (str_double_quotes)", "keys": ["fn with_empty_span", "fn str_double_quotes", "spec fn sql_quoted"]},
+    {"what": "sqlformat::format only changes white space between tokens (same_tokens) PROVIDED no quote of the text is preceded by a backslash - its tokenizer reads "
+             "\\' and \\\" as escaped quotes whatever the dialect (sqlformat 0.3.5 tokenizer.rs get_string_token) and otherwise re-spaces what follows; str::contains is "
+             "substring search; `formatted + \"\\n\"` appends a newline",
+     "keys": ["fn sqlformat_format", "spec fn same_tokens", "spec fn format_safe", "fn str_contains_lit", "spec fn contains_sub", "fn axiom_format_safe", "fn push_newline", "fn axiom_same_refl"]},
     {"what": "format!(\"{i}\") / format!(\"{f:?}\") are the uninterpreted int_text / float_text (std formatting round-trips)", "keys": ["spec fn int_text", "spec fn float_text", "fn fmt_int", "fn fmt_float"]},
     {"what": "date / time / interval literals are delegated to translate_other_literal (not under contract)", "keys": ["fn translate_other_literal"]},
     {"what": "str::parse::<i64> / ::<f64> are the uninterpreted partial functions as_i64 / as_f64 of the digit text", "keys": ["spec fn as_i64", "spec fn as_f64", "fn parse_i64", "fn parse_f64"]},
@@ -34,7 +40,9 @@ ASSUMED = [
     common_std.STR_PREDS_ASSUMPTION,
 ]
 TRUSTED = [
-    "oracle (C08): the SQL literal emitted for a PRQL string is a single-quoted string with exactly the same characters; an integer keeps its value; "
+    "oracle (C08): the SQL literal emitted for a PRQL string is a single-quoted string that a standard SQL lexer (two quotes = one) reads back as exactly the "
+    "same characters: every quote of the content doubled, nothing else touched; formatting the statement changes white space between tokens only, never a literal; "
+    "an integer keeps its value; "
     "a digit sequence denotes the i64 it spells when it fits, otherwise the f64 it spells; the 0 fallback is only for text that is neither",
     "the slices drop: the date/time/interval arms of translate_literal, the chumsky combinators of number()",
 ]
@@ -58,6 +66,21 @@ pub fn parse_f64(s: &String) -> (r: Result<f64, OpaqueT>) ensures match as_f64(s
 
 #[verifier::external_body] pub fn i64_to_string(i: i64) -> (r: String) ensures r@ == int_text(i), { unimplemented!() }
 #[verifier::external_body] pub fn i64_leading_zeros(i: i64) -> (r: u32) ensures r <= 64, r < 32 <==> (i < 0 || i >= 0x1_0000_0000), { unimplemented!() }
+pub uninterp spec fn sql_quoted(s: Seq<char>) -> Seq<char>;      // s with every single quote doubled
+#[verifier::external_body] pub fn str_double_quotes(s: &String) -> (r: String) ensures r@ == sql_quoted(s@), { unimplemented!() }
+pub uninterp spec fn same_tokens(a: Seq<char>, b: Seq<char>) -> bool;   // equal up to white space between tokens
+pub uninterp spec fn format_safe(s: Seq<char>) -> bool;                // no quote is preceded by a backslash
+pub uninterp spec fn contains_sub(s: Seq<char>, sub: Seq<char>) -> bool;
+#[verifier::external_body] pub fn str_contains_lit(s: &String, sub: &str) -> (r: bool) ensures r == contains_sub(s@, sub@), { unimplemented!() }
+#[verifier::external_body]
+pub proof fn axiom_format_safe(s: Seq<char>)
+    ensures (!contains_sub(s, "\\'"@) && !contains_sub(s, "\\\""@)) ==> format_safe(s),
+{}
+#[verifier::external_body] pub proof fn axiom_same_refl(s: Seq<char>) ensures same_tokens(s, s), {}
+#[verifier::external_body]
+pub fn sqlformat_format(sql: &String) -> (r: String) ensures format_safe(sql@) ==> same_tokens(r@, sql@), { unimplemented!() }
+#[verifier::external_body]
+pub fn push_newline(s: String) -> (r: String) ensures forall|o: Seq<char>| same_tokens(s@, o) ==> same_tokens(r@, o), { unimplemented!() }
 #[verifier::external_body] pub struct Handler { _p: u8 }
 pub struct Context { pub dialect: Box<Handler> }
 """
@@ -79,15 +102,16 @@ def build(X):
     tl.text = tl.text[:m.start()] + "\n        other => translate_other_literal(other, ctx)?,\n    })\n}\n"
     tl.rewrites.append({"rule": "R5", "what": "arms Literal::Date / Time / Timestamp / ValueAndUnit replaced by `other => translate_other_literal(other, ctx)?`"})
     tl.rewrite_re("R5", r"\.into\(\)", ".with_empty_span()", count=None, why="Value -> ValueWithSpan conversion keeps the value")
+    tl.rewrite_re("R5", r"\b(\w+)\.replace\('\\'', \"''\"\)", r"str_double_quotes(&\1)", count=None, why="str::replace('\\'', \"''\")")
     tl.rewrite_re("R5", r'format!\("\{f:\?\}"\)', "fmt_float(f)", count=None, why="format!")
     tl.rewrite_re("R5", r'format!\("\{i\}"\)', "fmt_int(i)", count=None, why="format!")
     tl.shim_str_predicates()
     tl.ret_name("r")
     tl.contract("""
         ensures
-            // C08: a string literal is emitted as a single-quoted SQL string with exactly the same characters
-            (l is String && r is Ok) ==> r->Ok_0 == sql_ast::Expr::Value(sql_ast::ValueWithSpan { value: Value::SingleQuotedString(l->String_0) }), // @TL1s
-            (l is RawString && r is Ok) ==> r->Ok_0 == sql_ast::Expr::Value(sql_ast::ValueWithSpan { value: Value::SingleQuotedString(l->RawString_0) }), // @TL1r
+            // C08: a string literal is emitted as a single-quoted SQL string whose payload is the content with every quote doubled (what a SQL lexer reads back as the content)
+            (l is String && r is Ok) ==> (r->Ok_0 is Value && r->Ok_0->Value_0.value is SingleQuotedString && r->Ok_0->Value_0.value->SingleQuotedString_0@ == sql_quoted(l->String_0@)), // @TL1s
+            (l is RawString && r is Ok) ==> (r->Ok_0 is Value && r->Ok_0->Value_0.value is SingleQuotedString && r->Ok_0->Value_0.value->SingleQuotedString_0@ == sql_quoted(l->RawString_0@)), // @TL1r
             (l is Integer && r is Ok) ==> (r->Ok_0 is Value && r->Ok_0->Value_0.value is Number && r->Ok_0->Value_0.value->Number_0@ == int_text(l->Integer_0)
                 && !r->Ok_0->Value_0.value->Number_1), // @TL1i
             (l is Boolean && r is Ok) ==> r->Ok_0 == sql_ast::Expr::Value(sql_ast::ValueWithSpan { value: Value::Boolean(l->Boolean_0) }), // @TL1b
@@ -130,4 +154,61 @@ def build(X):
             r == sql_ast::Expr::Value(sql_ast::ValueWithSpan { value: Value::Number(r->Value_0.value->Number_0, false) })
                 && r->Value_0.value->Number_0@ == int_text(number), // @EI1
     """)
-    return PRELUDE + lit.text + "\n" + sql_mod + tl.text + "\n" + num.text + "\n" + ei.text + "\n} // verus!\nfn main() {}\n"
+    # ---- sql::compile: formatting
+    fm = X.slice("prqlc/prqlc/src/sql/mod.rs", "compile", "let sql = if options.format", "let sql = if options.format", name="format_slice", end_stmt=True)
+    fm.rewrite_re("R5", r"sqlformat::format\(\s*&sql,\s*&sqlformat::QueryParams::default\(\),\s*&sqlformat::FormatOptions::default\(\),?\s*\)", "sqlformat_format(&sql)", count=None,
+                  why="sqlformat::format with default parameters")
+    fm.rewrite_re("R5", r"\bformatted \+ \"\\n\"", "push_newline(formatted)", count=None, why="String + &str")
+    fm.rewrite_re("R5", r"\bsql\.contains\((\"(?:[^\"\\]|\\.)*\")\)", r"str_contains_lit(&sql, \1)", count=None, why="str::contains")
+    fm.rewrite_re("R6", r"\boptions\.format\b", "options_format", count=None, why="Options reduced to its `format` field (a parameter)")
+    fm.text = ("pub fn format_slice(sql0: String, options_format: bool) -> (sql: String)\n"
+               "    ensures\n"
+               "        // C08: formatting changes white space between tokens only - no literal is altered\n"
+               "        same_tokens(sql@, sql0@), // @FM1\n"
+               "        !options_format ==> sql == sql0, // @FM2\n"
+               "{\n    let sql = sql0;\n    proof { axiom_format_safe(sql@); axiom_same_refl(sql@); }\n    " + fm.text + "\n    sql\n}\n")
+    fm.rewrites.append({"rule": "slice", "what": "the `let sql = if options.format .. ;` statement of sql::compile wrapped as fn format_slice(sql, options.format)"})
+    return PRELUDE + lit.text + "\n" + sql_mod + tl.text + "\n" + num.text + "\n" + ei.text + "\n" + fm.text + "\n} // verus!\nfn main() {}\n"
+
+
+# ----------------------------------------------------------------------------- replay / sweep on the real compiler + SQLite
+SWEEP_DOC = ("string literals with quotes, runs of quotes, backslashes, backslash-quote and trailing backslash - alone and next to a second literal - compiled by the real "
+             "prqlc for sql.sqlite with the DEFAULT (formatted) output and executed by SQLite: the values that come back must be the PRQL strings")
+
+# (PRQL source text of the literal - double-quoted, escapes as PRQL reads them -, the string it denotes)
+_STRINGS = [('"plain"', "plain"), ('"it\'s"', "it's"), ('"a\'\'b"', "a''b"), ('"\'\'\'"', "'''"), ('"\'\'"', "''"), ('"say \\"hi\\""', 'say "hi"'),
+            ('"c:\\\\dir"', "c:\\dir"), ('"a\\\\"', "a\\"), ('"x\\\\\'y"', "x\\'y"), ('"a\\\\\'\'"', "a\\''"), ('"\\\\\\\\"', "\\\\"), ("r'raw\\n'", "raw\\n"), ('"tab\\there"', "tab\there")]
+
+
+def _try(items):
+    import replaylib
+    prql = "from t\nselect {%s}\n" % ", ".join("v%d = %s" % (i, src) for i, (src, _) in enumerate(items))
+    want = tuple(v for _, v in items)
+    rec = {"obligation": "literals.TL1s", "input": prql, "expected": repr(want), "replay_kind": "strings", "items": [list(x) for x in items]}
+    ok, sql = replaylib.compile_prql(prql, "sql.sqlite")
+    if not ok:
+        rec.update(failing="PANIC" in sql, observed=sql[:300])
+        return rec
+    ok2, rows = replaylib.sqlite_rows("create table t(a integer); insert into t values(1);", sql)
+    got = tuple(rows[0]) if ok2 and rows else rows
+    rec.update(failing=got != want, observed=repr(got)[:300], sql=sql)
+    if rec["failing"] and ok2 and len(items) > 1:
+        rec["obligation"] = "literals.FM1"
+    return rec
+
+
+def sweep():
+    out = [_try([it]) for it in _STRINGS]
+    out += [_try([a, ('"b c"', "b c")]) for a in _STRINGS]
+    return out
+
+
+def replay(failure):
+    for r in sweep():
+        if r["failing"]:
+            return r
+    return {"failing": False}
+
+
+def rerun(doc):
+    return _try([tuple(x) for x in doc["items"]])
